@@ -152,8 +152,13 @@ def run(ctx):
     vref = fb.find("interpreter::library::native::base::vector_ref")
     cl = [callee(t) for _, t in vref.calls() if (callee(t) or "").endswith("::clone")]
     ctx.inst("C03-vector-type", "vector_ref/clones", cl)
-    if cl != ["<values::Value as std::clone::Clone>::clone"]:
-        ctx.report("C03-vector-type", "vector_ref/clone", "vector-ref clones %s" % cl, where_of(vref))
+    # (positive evidence only: a clone of the vector / its storage; how the element is copied — clone(), cloned() — is free;
+    #  the vector table of evaltables.py decides that the element itself is what comes back)
+    badcl = [c for c in cl if "Vec" in c or "ValueReference" in c or "RefCell" in c]
+    if badcl:
+        ctx.report("C03-vector-type", "vector_ref/clone", "vector-ref clones the vector's storage: %s" % badcl, where_of(vref))
+    from . import evaltables as _et
+    _et.rule_vector(ctx, "C03-vector-type")
 
     # ------------------------------------------------------------------ C03-literal-immutable
     ctx.rule("C03-literal-immutable", "literal vectors reject mutation; only vector-set! mutates, only through as_mut")
